@@ -564,4 +564,31 @@ MUTANTS = [
     Mutant("centroid-of-unmasked", SUP, "mob_centroid = centroid(mob_filtered)", "mob_centroid = centroid(mob_coord)", "R2.superimpose-composition"),
     Mutant("refactor-superimpose-inline", SUP, "    mob_centroid = centroid(mob_filtered)\n    fix_centroid = centroid(fix_filtered)\n", "    fix_centroid = centroid(fix_filtered)\n    mob_centroid = centroid(mob_filtered)\n", "R2.superimpose-composition", kind="silent"),
     Mutant("rmsd-sum", CMP, "np.sqrt(np.mean(_sq_euclidian(reference, subject), axis=-1))", "np.sqrt(np.sum(_sq_euclidian(reference, subject), axis=-1))", "R6.rmsd"),
+    # one seeded fault per rule that had none
+    Mutant("apply-returns-input-structure", SUP, "            superimposed = atoms.copy()\n", "            superimposed = atoms\n", "R1.apply-return"),
+    Mutant("apply-returns-coord-only", SUP, "            superimposed.coord = superimposed_coord\n            return superimposed\n", "            return superimposed_coord\n", "R1.apply-return"),
+    Mutant("apply-shape-not-restored", SUP, "        superimposed_coord = superimposed_coord.reshape(original_shape)\n", "", "R1.apply-shape"),
+    Mutant("identity-helper-ones", SUP, "matrices = np.zeros((m, n, n), dtype=float)", "matrices = np.ones((m, n, n), dtype=float)", "R1.identity-helper"),
+    Mutant("identity-helper-antidiagonal", SUP, "matrices[:, indices, indices] = 1", "matrices[:, indices, indices[::-1]] = 1", "R1.identity-helper"),
+    Mutant("rotation-factor-3x3", SUP, "rotation_mat = _3d_identity(n_models, 4)", "rotation_mat = _3d_identity(n_models, 3)", "R1.matrix-identity"),
+    Mutant("target-translation-model-axis", SUP, "superimposed_coord += self.target_translation[:, np.newaxis, :]", "superimposed_coord += self.target_translation[np.newaxis, :, :]", "R1.per-model-broadcast"),
+    Mutant("gap-penalty-ignored", SUP, "        substitution_matrix,\n        gap_penalty,\n        terminal_penalty,\n    )", "        substitution_matrix,\n        -10,\n        terminal_penalty,\n    )", "R2.param-used", qualname="superimpose_homologs"),
+    Mutant("rotation-transposed", SUP, "AffineTransformation(-mob_centroid, rotation, fix_centroid)", "AffineTransformation(-mob_centroid, rotation.transpose(0, 2, 1), fix_centroid)", "R2.rotation-source"),
+    Mutant("target-is-mobile-centroid", SUP, "AffineTransformation(-mob_centroid, rotation, fix_centroid)", "AffineTransformation(-mob_centroid, rotation, mob_centroid)", "R2.target-translation"),
+    Mutant("target-sign", SUP, "AffineTransformation(-mob_centroid, rotation, fix_centroid)", "AffineTransformation(-mob_centroid, rotation, -fix_centroid)", "R2.target-translation"),
+    Mutant("kabsch-returns-uncorrected-factor", SUP, "    matrices = np.matmul(v, w)\n    return matrices", "    matrices = np.matmul(v, w)\n    return v", "R3.return"),
+    Mutant("svd-of-transposed-covariance", SUP, "v, s, w = np.linalg.svd(cov)", "v, s, w = np.linalg.svd(cov.transpose(0, 2, 1))", "R3.svd-input"),
+    Mutant("outliers-judged-on-unfitted", SUP, "sq_dist = distance(filtered_fixed_coord, superimposed_coord) ** 2", "sq_dist = distance(filtered_fixed_coord, filtered_mobile_coord) ** 2", "R4.distance-pair"),
+    Mutant("zero-iterations-accepted", SUP, "    if max_iterations < 1:", "    if max_iterations < 0:", "R4.iterations-guard"),
+    Mutant("carry-hoisted-out-of-loop", SUP, "    for _ in range(max_iterations):\n        # Run superimposition\n        inlier_mask = updated_inlier_mask\n", "    inlier_mask = updated_inlier_mask\n    for _ in range(max_iterations):\n        # Run superimposition\n", "R4.loop-carry"),
+    Mutant("mask-advanced-after-fit", SUP, "            sq_dist <= upper_quantile + outlier_threshold * ipr\n        )\n", "            sq_dist <= upper_quantile + outlier_threshold * ipr\n        )\n        inlier_mask = updated_inlier_mask\n", "R4.mask-stable"),
+    Mutant("outlier-returns-anchor-coord", SUP, "    return transform.apply(mobile), transform, anchor_indices", "    return superimposed_coord, transform, anchor_indices", "R4.return"),
+    Mutant("backbone-anchor-c", SUP, "(atoms.atom_name == \"CA\")", "(atoms.atom_name == \"C\")", "R5.backbone-anchors"),
+    Mutant("backbone-anchor-nucleotide-any-p", SUP, "        | ((filter_nucleotides(atoms)) & (atoms.atom_name == \"P\"))\n", "        | (atoms.atom_name == \"P\")\n", "R5.backbone-anchors"),
+    Mutant("homolog-kwargs-dropped", SUP, "        min_anchors,\n        **kwargs,\n    )", "        min_anchors,\n    )", "R5.kwargs"),
+    Mutant("homolog-min-anchors-dropped", SUP, "        min_anchors,\n        **kwargs,\n    )", "        **kwargs,\n    )", "R5.kwargs"),
+    Mutant("offset-not-accumulated", SUP, "fixed_seq_offset += len(fixed_seq)", "fixed_seq_offset = len(fixed_seq)", "R5.offset-accumulate"),
+    Mutant("offset-columns-swapped", SUP, "anchors += fixed_seq_offset, mobile_seq_offset", "anchors += mobile_seq_offset, fixed_seq_offset", "R5.offset-columns"),
+    Mutant("homolog-return-order", SUP, "        transform,\n        fixed_anchor_indices,\n        mobile_anchor_indices,\n    )", "        transform,\n        mobile_anchor_indices,\n        fixed_anchor_indices,\n    )", "R5.return"),
+    Mutant("sq-deviation-sum", CMP, "dif = subject_coord - reference_coord", "dif = subject_coord + reference_coord", "R6.sq-deviation"),
 ]
